@@ -50,4 +50,16 @@ PROPS = {
         assumptions=[T_VSTD, T_ARITH, T_EXTRACT, "T-run: vm::run returns at least prog.n_saves slots with a valid group-0 span (U-RUN postcondition)", "Regex::wf: n_groups >= 1 and 2*n_groups <= prog.n_saves (new_options / compile; U-COMPILE)",
                      "T-RA: regex-automata Captures accessors (ARMSUB shims)"],
     ),
+    'C13': dict(
+        level='proof',
+        explanation=("Analyzer::visit is verified by Verus, for EVERY expression tree (structural induction carried by the real recursive function), against the spec match-length relation len_of: "
+                     "at every node of the Info tree no n with len_of(e, n) is below the computed min_size, and when const_size is set every n <= usize::MAX with len_of(e, n) equals min_size "
+                     "(the second sentence of the property, literally); the Info tree mirrors the expression tree; no arithmetic overflows. "
+                     "prev_codepoint_ix (what GoBack uses) is verified to step back exactly one code point and never below a boundary."),
+        residual=("compile_lookaround(_inner) (LookBehindNotConst iff not const; per-alternative split; GoBack(min_size)) and the GoBack arm of vm::run are decided in U-COMPILE / U-RUN; "
+                  "Expr::Delegate{size} accuracy and 1:1 simple case folding are trusted; parser shape facts (expr_wf) are assumed."),
+        assumptions=[T_VSTD, T_ARITH, T_EXTRACT, "T-parser-shape: trees reaching analyze satisfy expr_wf (every Alt non-empty, every Literal node one character) and have at most usize::MAX groups",
+                     "T-delegate-size / T-casefold: a Delegate node matches exactly `size` characters; case-insensitive literals match the same number of characters",
+                     "T-bitset: bit_set::BitSet::contains is a pure membership test"],
+    ),
 }
